@@ -4,6 +4,7 @@
 mod gen;
 mod proto;
 mod rng;
+mod world;
 mod streams;
 
 use std::io::Write;
